@@ -563,6 +563,36 @@ def for_over(self, node, st: State, it):
     if spec is None:
         raise Unsupported(f"for loop {ordinal} over {it!r} without invariant")
 
+    from .values import RangeVal
+    if isinstance(it, RangeVal):
+        # for v in range(start, stop, step): v = start, start+step, ... while v < stop.  The step must be positive (obligation);
+        # the invariant is stated over the loop variable's value at the head ("i").
+        self.oblige(st, it.step > 0, f"loop{ordinal}:range-step-is-positive", "requires")
+        self.check_inv(st, spec, "init", ordinal, {"i": it.start, "start": it.start, "stop": it.stop, "step": it.step})
+        s = st.fork()
+        self.havoc_for_loop(node, s, spec)
+        s.ghost[f"$loophead{ordinal}"] = dict(s.heap)
+        iv = z3.Int(fresh_name("rv"))
+        s.assume(z3.And(iv >= it.start, it.step > 0))
+        s_exit = s.fork()
+        s_exit.assume(z3.And(iv >= it.stop, z3.Or(iv == it.start, iv - it.step < it.stop)))
+        self.assume_inv(s_exit, spec, {"i": iv, "start": it.start, "stop": it.stop, "step": it.step})
+        s_exit.trail.append(f"for{ordinal}=exit")
+        exits = [(OK, s_exit, None)]
+        s.assume(iv < it.stop)
+        self.assume_inv(s, spec, {"i": iv, "start": it.start, "stop": it.stop, "step": it.step})
+        s.trail.append(f"for{ordinal}=body")
+        if quick_sat(s.pc):
+            for kind, s2, v in bind(self.assign_target(node.target, Val(iv, INT), s), lambda s3, _x: self.exec_block(node.body, s3)):
+                if kind in (OK, CONT):
+                    self.check_inv(s2, spec, "pres", ordinal, {"i": iv + it.step, "start": it.start, "stop": it.stop, "step": it.step})
+                elif kind == BRK:
+                    s2.ghost["$loop_broke"] = True
+                    exits.append((OK, s2, None))
+                else:
+                    exits.append((kind, s2, v))
+        return exits
+
     # symbolic iteration
     if isinstance(it, GenVal):
         mode, elem_ty = "set", it.elem_ty
